@@ -13,6 +13,7 @@ import Goat.Driver.Slice
 import Goat.Driver.Str
 import Goat.Driver.Print
 import Goat.Driver.Reload
+import Goat.Driver.Incr
 /-! goatmodel: one operation per input line, one canonical output line per operation. -/
 open Goat.Driver
 
@@ -32,6 +33,7 @@ def step (st : DriverState) (line : String) : DriverState × String :=
   | "tsort" :: args => (st, tsortCmd args)
   | "opt" :: args => (st, optCmd args)
   | "str" :: args => (st, strCmd args)
+  | "incr" :: args => (st, incrCmd args)
   | "rl" :: args => let (r, o) := rlCmd st.rl args; ({ st with rl := r }, o)
   | "print" :: args => let (h, o) := printCmd st.heap args; ({ st with heap := h }, o)
   | "slice" :: args => let (s, o) := sliceCmd st.slice args; ({ st with slice := s }, o)
